@@ -125,6 +125,20 @@ def stepTok (st : DSt) (ws : List String) : Option (DSt × String) :=
       | some none => some (st, s!"err t={w.tok c} a={w.appr c 7}")
       | none => some (st, "unknown-step")
     | _, _ => none
+  | ["tkb", ti, _kind, c, a] =>
+    -- bridgeCall token list: keeper-level conversion of the HOLDER's tokens (no ERC-20 allowance involved); the holder is
+    -- the provenance the regenerated closure row gives for EvmToBaseCoin's last argument (Props: bridge_call_token_holder_is_caller)
+    match nats [ti, c, a] with
+    | some [ti, c, a] =>
+      let w := st.t ti
+      let holderIsCaller := FxVerif.Gen.C10.closures.any (fun cl => cl.abiName == "bridgeCall" &&
+        cl.steps.any (fun s => s.callee == "EvmToBaseCoin" && s.args.getLast? == some "caller"))
+      if !holderIsCaller then some (st, "unknown-step")
+      else if w.tok c < a then some (st, s!"err t={w.tok c} a={w.appr c 7}")
+      else
+        let w' : FxVerif.Model.C10Tok.TW := { w with tok := FxVerif.Model.C10Tok.upd w.tok c (w.tok c - a) }
+        some ({ st with t := fun i => if i = ti then w' else st.t i }, s!"ok t={w'.tok c} a={w'.appr c 7}")
+    | _ => none
   | _ => none
 
 def step (st : World) (line : String) : World × String :=
@@ -181,6 +195,7 @@ def stepD (st : DSt) (line : String) : DSt × String :=
   | "reset" :: _ => (dInit, "ok")
   | "tkset" :: r => (match stepTok st ("tkset" :: r) with | some x => x | none => (st, "bad-op"))
   | "tk" :: r => (match stepTok st ("tk" :: r) with | some x => x | none => (st, "bad-op"))
+  | "tkb" :: r => (match stepTok st ("tkb" :: r) with | some x => x | none => (st, "bad-op"))
   | _ => let r := step st.w line; ({ st with w := r.1 }, r.2)
 
 def main : IO Unit := runDriver stepD dInit
